@@ -13,7 +13,8 @@ T2: (a) sequential: random single-process histories, the REAL MPCacheSimple
         are scheduling points granted by the parent; each run yields a trace
         (compared with the model's `mrun` on the same schedule, including
         who had to wait) and a history (checked for linearizability by an
-        exact python checker and by Spec.Cache.lin_check inside Coq);
+        exact python checker and by Spec.Cache.lin_ok inside Coq - proved
+        sound w.r.t. the Prop `linearizable`, Props/C19.v);
     (c) a probe that parks a writer inside dbm.dumb's commit (index file
         renamed away) and lets a reader try to get the same key;
     (d) free-running stress runs with real blocking; histories ordered by
@@ -87,21 +88,39 @@ def hist_coq(events):
     return "[" + "; ".join(out) + "]"
 
 
+# model value id -> the python value really stored (ids 0..9 are the ints
+# themselves; the rest are falsy / non-int values: '', [], False, 'x', [1],
+# 0.0 would be ==-equal to 0 and is left out)
+PYVAL = {i: i for i in range(10)}
+PYVAL.update({10: '', 11: [], 12: False, 13: 'x', 14: [1]})
+FALSY = [0, 10, 11, 12]
+POOLS = [list(range(1, 10)), [0, 1, 2], [1, 2], FALSY + [5], [0, 3, 10, 13],
+         list(range(0, 15))]
+
+
+def val_id(v):
+    for i, p in PYVAL.items():
+        if type(v) is type(p) and v == p:
+            return i
+    return None
+
+
 def do_op(cache, op):
     """ run one operation on the real cache; canonical result """
     try:
         if op[0] == 'set':
-            r = cache.set(keyname(op[1]), op[2])
+            r = cache.set(keyname(op[1]), PYVAL[op[2]])
             return res_enc('ack') if r is None else ['odd', repr(r)]
         if op[0] == 'get':
             v = cache.get(keyname(op[1]))
-            if v is None or (isinstance(v, int) and not isinstance(v, bool)):
-                return res_enc('val', v)
-            return ['odd', repr(v)]
+            if v is None:
+                return res_enc('val', None)
+            i = val_id(v)
+            return res_enc('val', i) if i is not None else ['odd', repr(v)]
         if op[0] == 'unset':
             cache.unset(keyname(op[1]))
             return res_enc('ack')
-        cache.bulk_set({keyname(k): v for k, v in op[1]})
+        cache.bulk_set({keyname(k): PYVAL[v] for k, v in op[1]})
         return res_enc('ack')
     except BaseException as exc:   # pylint: disable=broad-except
         return [2, f"{type(exc).__name__}: {exc}"[:200]]
@@ -713,8 +732,8 @@ Definition run_sched (c : list (list op) * list Z) : jv :=
   let '(progs, sched) := c in
   let '(labs, s) := mrun M (init progs) (map Z.to_nat sched) in
   JL [JZs labs; JL (map resp_jv (responses s));
-      JB (lin_check (rev (erase (hist s))))].
-Definition run_lin (h : list hev) : jv := JB (lin_check h).
+      JB (lin_ok (rev (erase (hist s))))].
+Definition run_lin (h : list hev) : jv := JB (lin_ok h).
 """
 
 
@@ -728,6 +747,15 @@ FIXED_SEQ = [
     [('set', 1, 5), ('set', 1, 6), ('get', 1), ('get', 2)],
     [('bulk', [(1, 4), (2, 5)]), ('unset', 1), ('get', 1), ('get', 2),
      ('bulk', []), ('get', 2)],
+    # falsy values are values: get returns them, unset removes them
+    [('set', 1, 0), ('get', 1), ('unset', 1), ('get', 1)],
+    [('set', 1, 10), ('get', 1), ('unset', 1), ('get', 1)],
+    [('bulk', [(1, 11), (2, 12)]), ('get', 1), ('get', 2), ('unset', 1),
+     ('unset', 2), ('get', 1), ('get', 2)],
+    # writing the same value again after it was removed / replaced
+    [('set', 1, 5), ('unset', 1), ('set', 1, 5), ('get', 1)],
+    [('set', 1, 5), ('set', 1, 6), ('set', 1, 5), ('get', 1),
+     ('bulk', [(1, 5)]), ('get', 1)],
 ]
 
 
@@ -742,7 +770,7 @@ def sequential(chk):
             nk = rng.choice([1, 2, 3])
             keys = rng.sample([0, 1, 2], nk)
             prog = gen_prog(rng, rng.choice([1, 2, 3, 4, 6, 8, 10]), keys,
-                            [1, 2, 3, 4, 5, 6, 7, 8, 9])
+                            rng.choice(POOLS))
             if c < len(FIXED_SEQ):
                 prog = FIXED_SEQ[c]
             root = os.path.join(d, f"r{c}")
@@ -792,7 +820,7 @@ def sequential(chk):
 
 
 def gen_progs(rng, nproc, nops, keys):
-    vals = list(range(1, 10))
+    vals = rng.choice(POOLS)
     progs = []
     for _ in range(nproc):
         progs.append(gen_prog(rng, rng.randint(1, nops), keys, vals))
@@ -819,7 +847,20 @@ EXH_PROGRAMS = [
      [('get', 1), ('set', 2, 7)], [1, 2]),
     ([('set', 1, 5), ('get', 2)], [('set', 2, 6), ('get', 1)], [1, 2]),
     ([('unset', 1), ('set', 1, 4)], [('bulk', [(1, 8)]), ('get', 1)], [1]),
+    # A-B-A across processes: the same value written again after another
+    # process replaced / removed it
+    ([('set', 1, 5), ('set', 1, 5)], [('set', 1, 6), ('get', 1)], [1]),
+    ([('bulk', [(1, 5), (2, 3)]), ('bulk', [(1, 5), (2, 3)])],
+     [('unset', 1), ('get', 1)], [1, 2]),
+    # falsy values under contention
+    ([('set', 1, 0), ('unset', 1)], [('get', 1), ('get', 1)], [1]),
 ]
+# plans (segment mode, 3 segments per operation) always run for every pair:
+# operations alternate between the processes, starting with either
+FIXED_PLANS = [[0] * 3 + [1] * 3 + [0] * 3 + [1] * 3,
+               [1] * 3 + [0] * 3 + [1] * 3 + [0] * 3,
+               [0] * 6 + [1] * 6, [1] * 6 + [0] * 6,
+               [0] * 3 + [1] * 6 + [0] * 3]
 
 
 def plan_runs(chk):
@@ -830,7 +871,7 @@ def plan_runs(chk):
     allint = list(interleavings([6, 6]))
     for (a, b, keys) in EXH_PROGRAMS:
         if chk.quick:
-            sel = rng.sample(allint, 80)
+            sel = FIXED_PLANS + rng.sample(allint, 60)
         else:
             sel = allint
         for pl in sel:
@@ -955,7 +996,7 @@ def scheduled(chk):
             continue
         chk.broken.append({'obligation': 'linearizability checkers agree',
                            'why': f"python says {hwants[i]}, Spec.Cache."
-                                  f"lin_check says {v} on {hcases[i]}"})
+                                  f"lin_ok says {v} on {hcases[i]}"})
 
 
 def commit_probe(chk):
@@ -1035,8 +1076,8 @@ def stress(chk):
     hcases, hwants = [], []
     for nproc, nops in cfgs:
         keys = rng.sample([0, 1, 2], rng.choice([1, 2, 3]))
-        progs = [gen_prog(rng, nops, keys, list(range(1, 10)))
-                 for _ in range(nproc)]
+        pool = rng.choice(POOLS)
+        progs = [gen_prog(rng, nops, keys, pool) for _ in range(nproc)]
         ops, err = free_run(chk, progs)
         chk.coverage['evaluations'] += 1
         chk.dist('stress_runs', 1)
@@ -1065,7 +1106,7 @@ def stress(chk):
             if i >= 0:
                 chk.broken.append(
                     {'obligation': 'linearizability checkers agree',
-                     'why': f"python says {hwants[i]}, Spec.Cache.lin_check "
+                     'why': f"python says {hwants[i]}, Spec.Cache.lin_ok "
                             f"says {v} on {hcases[i]}"})
 
 
@@ -1110,7 +1151,8 @@ def run(chk):
         "the OS scheduler is fair: with no_deadlock and finite operations "
         "no process waits for ever",
         "time.monotonic_ns() is one system-wide clock (stress runs only)",
-        "values are small integers; pickling of richer values is shelve's"]
+        "values are drawn from 15 ==-classes (ints 0-9, '', [], False, 'x', "
+        "[1]); pickling of richer values is shelve's"]
 
 
 def replay(chk, path):
